@@ -4,6 +4,7 @@
   `escape q` writes a text with the documented escapes.
 -/
 import DS.Model.StrLit
+import DS.Model.VMRun
 
 namespace DS.Props.C13
 open DS.StrLit
@@ -159,5 +160,31 @@ theorem KF_backtick_not_escapable :
 example : scan '\'' (escape '\'' ['i', 't', '\'', 's', '\\', '\n', '{'] ++ ['\'']) [] =
     .closed ['i', 't', '\'', 's', '\\', '\n', '{'] [] := by decide
 example : delimFree '`' ['a', '{', '}', '\x1e'] = true := by decide
+
+
+/-! ### run-time half: how the VM assembles a template -/
+
+open DS.VM in
+/-- **A template is the concatenation, in order, of its parts.**  `ld.fs n` (the instruction a template with n parts compiles
+    to) replaces the n topmost operands — the literal segments and the values its holes left, in source order — by ONE string:
+    the concatenation, bottom to top, of their string forms (for every heap, every operand values; below the 1 MiB cap). -/
+theorem template_join (sub : SubRun) (g : G) (f : Frame) (n : Int) (h : n.toNat ≤ f.top) (hroom : f.top - n.toNat < f.stack.size)
+    (hcap : exec.tooLong ((List.range n.toNat).map (fun i => valToString g.heap (f.stack[f.top - n.toNat + i]!))) 0 = false) :
+    exec sub g f (.ldFs n) =
+      .next g { f with pc := f.pc + 1, top := f.top - n.toNat + 1,
+                       stack := f.stack.set! (f.top - n.toNat)
+                         (.str (String.join ((List.range n.toNat).map (fun i => valToString g.heap (f.stack[f.top - n.toNat + i]!))))) } := by
+  simp only [exec]
+  have h1 : ¬ f.top < n.toNat := by omega
+  simp only [h1, if_false, hcap, Bool.false_eq_true, Frame.push, hroom, if_true]
+
+open DS.VM in
+/-- a template that would exceed the cap is an error, never a truncated string -/
+theorem template_cap (sub : SubRun) (g : G) (f : Frame) (n : Int) (h : n.toNat ≤ f.top)
+    (hcap : exec.tooLong ((List.range n.toNat).map (fun i => valToString g.heap (f.stack[f.top - n.toNat + i]!))) 0 = true) :
+    exec sub g f (.ldFs n) = .stop g { f with pc := f.pc + 1 } (.err "不能一次性创建过长的字符串") := by
+  simp only [exec]
+  have h1 : ¬ f.top < n.toNat := by omega
+  simp only [h1, if_false, hcap, if_true]
 
 end DS.Props.C13
